@@ -6,8 +6,8 @@ import IceProofs.Sys2C20Resp
 Transaction ids (`TInv`, along ALL schedules): A hands out even ids below `2 * nextTid`, B odd ids; a response carries
 the id of the request it answers.  In an exchange (`LInv`): a request in flight with the id of an outstanding valued
 transaction of A IS that nomination; a success response in flight with that id was sent by B after it had handed the
-nomination to its selector, so B's highest accepted value is at least the value; hence the same for the nomination
-whose response A processed last.
+nomination to its selector, so B's highest accepted value is at least the value; hence the same for every nomination
+whose response A has processed.
 -/
 namespace IceProofs.C20S
 open IceModel.AgentCore IceModel.Sys2 IceProofs.Sys2Run IceProofs.Agent IceProofs.Sys2C05
@@ -122,8 +122,8 @@ def LinkOK (s : Sys) (d : Dgram) : Prop :=
 structure LInv (h : Hist) (s : Sys) : Prop where
   tids : TInv s
   link : ∀ d ∈ s.inflight, LinkOK s d
-  /-- B has processed the nomination whose response A processed last -/
-  ansB : ∀ x, h.answered = some x → ∃ last, s.b.lastNomination = some last ∧ x.1 ≤ last
+  /-- B has processed every nomination whose response A has processed -/
+  ansB : ∀ x ∈ h.answered, ∃ last, s.b.lastNomination = some last ∧ x.1 ≤ last
 
 /-- an answered transaction was outstanding, and the event is a success response with its id -/
 theorem answerOf_tid {a : Agent} {ev : Ev} {pd : Pending} {id : Nat} (h : answerOf a ev = some (pd, id)) :
@@ -332,7 +332,7 @@ theorem ql_agentEv {nat : List (Nat × Nat)} {h : Hist} {s : Sys} (ql : QL nat h
         · obtain ⟨d', m', now, la, src, hd', hp', he, hc', ht', _, hcld⟩ := resp_of_request hadmL hmem hc
           have hnom := ((hd' pd hpdm v hv m' hp' (ht'.trans ht)).1 hc').1
           exact last_of_delivery hnr (hcld hs6) hnom
-  · -- the nomination answered last
+  · -- the nominations answered
     intro x hx
     cases X with
     | false =>
@@ -340,14 +340,13 @@ theorem ql_agentEv {nat : List (Nat × Nat)} {h : Hist} {s : Sys} (ql : QL nat h
       rw [eA] at hx
       rw [hstepA_answered] at hx
       rw [agentEv_b_false]
-      cases hao : answeredNom s.a ev with
-      | none =>
+      rcases List.mem_append.mp hx with hx | hx
+      · exact l.ansB x hx
+      · cases hao : answeredNom s.a ev with
+        | none => rw [hao] at hx; cases hx
+        | some y =>
         rw [hao] at hx
-        simp only [Option.orElse_none] at hx
-        exact l.ansB x hx
-      | some y =>
-        rw [hao] at hx
-        simp only [Option.orElse_some, Option.some.injEq] at hx
+        simp only [Option.toList_some, List.mem_singleton] at hx
         subst hx
         unfold answeredNom at hao
         cases ha : answerOf s.a ev with
